@@ -213,8 +213,46 @@ CHECKS = {
         rule="(a) non-trivial item = candidate kind that still carries a valid signature; (b) non-trivial = chain spanning >=3 ticks "
              "evaluated on >=2 nodes with different cache state (always 3 here)",
         assumptions=HIST_ASSUME,
-        jobs=[dict(test="TestC05Election", quick=T(4, 10), thorough=T(8, 150, 0, 3000)),
-              dict(test="TestC05Candidates", quick=T(3, 8), thorough=T(6, 120, 0, 3000)),
-              dict(test="TestC05Reorg", quick=T(1, 8), thorough=T(2, 100, 0, 3000))],
+        jobs=[dict(test="TestC05Election", quick=T(4, 30), thorough=T(8, 150, 0, 3000)),
+              dict(test="TestC05Candidates", quick=T(3, 25), thorough=T(6, 120, 0, 3000)),
+              dict(test="TestC05Reorg", quick=T(1, 20), thorough=T(2, 100, 0, 3000))],
+    ),
+    "C09": dict(
+        level="exploration",
+        level_text="Stateful property testing of one producing node under three spork regimes (none, early, switching on inside "
+                   "the history): calls to every embedded contract and method from the ABI definitions in three argument layers "
+                   "(typed boundary values, non-canonical re-encodings of valid packings, raw bytes after a valid selector), "
+                   "model-guided valid calls that reach deep contract states, token/amount variants. Before the real pillar "
+                   "worker generates a contract receive the harness generates it under recover (pre-flight): a panic or internal "
+                   "error is a violation with the send block as replay; for every receive whose method failed, the receive must "
+                   "carry exactly one refund of (amount, token) to the sender (none for amount 0); after every momentum every "
+                   "contract inbox must be drained (no wedge).",
+        level_note="Bridge/liquidity administrator-only success paths are reached only where no administrator key is needed (their "
+                   "failure paths are exercised); the C01 identity checks value conservation of the same histories.",
+        technique="stateful property-based testing (rapid) with ABI-derived argument generators and a pre-flight crash oracle",
+        rule="non-trivial = history with >=1 accepted call that failed at receive time and was refunded, or a call sent below and "
+             "received at/after a spork enforcement height; accepted-method histogram in counters",
+        assumptions=HIST_ASSUME,
+        death_is_violation=True,
+        jobs=[dict(test="TestC09", quick=T(8, 14, 60), thorough=T(16, 300, 90, 3000))],
+    ),
+    "C17": dict(
+        level="exploration",
+        level_text="Stateful: sporks are created and activated inside generated histories by the designated key and by other "
+                   "keys (must be refused), repeatedly; a model keeps the spork table (id = creating send, enforcement = "
+                   "confirming momentum + 6, first activation only) and must equal the contract's table after every step. "
+                   "Gating: for momentums at enforcement-2..+2 of every activated spork, at the frontier and at a random "
+                   "height, six otherwise-valid probe calls (accelerator, liquidity, bridge, HTLC methods) acknowledging that "
+                   "momentum are evaluated on the producer and on a synced follower: inactive => refused, active => not refused "
+                   "with a gating error, both nodes agree. TestC17Halt (child processes): a producing node, a restarted node "
+                   "and a syncing node (batch sizes 1..9) that do not implement an activated spork must exit with status 2 at "
+                   "the enforcement momentum and hold nothing above it.",
+        level_note="Implemented-spork ids are process globals bound to the dynamic ids exactly as the repository's tests do. "
+                   "Receive-time agreement of followers for gated calls is C02's differential.",
+        technique="model-based stateful property testing (rapid); differential probes on two nodes; child-process exit-status check",
+        rule="non-trivial item = (probe, table level, accepted?) evaluated within +-2 of an enforcement height; halt cases are all non-trivial",
+        assumptions=HIST_ASSUME,
+        jobs=[dict(test="TestC17", quick=T(6, 8, 60), thorough=T(12, 150, 80, 3000)),
+              dict(test="TestC17Halt", quick=T(2, 2), thorough=T(4, 30, 0, 3000))],
     ),
 }
